@@ -5,6 +5,7 @@ from fractions import Fraction
 
 from .. import AnalysisError, tables
 from ..deg import DegChecker, TOP
+from ..canon import single_assignments
 from ..pat import find_expr, find_stmt, match_expr, match_stmt
 from ..pm import src
 from ..prov import Prov
@@ -147,7 +148,8 @@ def run(ctx):
 
     # ---- C05.2 birth likelihoods ----------------------------------------------------------------
     bl = prog.cls(NS).methods["birth_log_likelihoods"]
-    okb = len(find_stmt("$$l = array(self.state.logLs)", bl.node)) == 1 and len(find_stmt("$$i = array(self.nested_samples)['it']", bl.node)) == 1 and len(find_stmt("return $$l[$$i].flatten()", bl.node)) == 1
+    rb_ = [n for n in walk_no_nested(bl.node) if isinstance(n, ast.Return)]
+    okb = len(rb_) == 1 and match_expr("array(self.state.logLs)[array(self.nested_samples)['it']].flatten()", rb_[0].value, inline=single_assignments(bl.node)) is not None
     ctx.ob("R-SIB", "C05.2", bl, "birth likelihood of a sample = integrator likelihood list indexed by the sample's `it` stamp", okb, "")
     ctx.ob("R-SIB", "C05.2", ns_dict_f, "the result dictionary reports those birth likelihoods", "logL_birth" in ns_dict and src(ns_dict["logL_birth"]) == "self.birth_log_likelihoods", "")
     st0 = ctx.fn("nessai.evidence:_NSIntegralState.__init__")
